@@ -271,6 +271,19 @@ def object_case(c):
             d3 = np.empty((nz, nq))
             pg.parallel_gradient(2.0 * phi, ri, d3)
             run['scale_dev'] = float(np.max(np.abs(d3 - 2.0 * der)))
+            # the potential may be held in another number type (integer-valued data are the same numbers in all of them)
+            pint = np.array([[rng.randint(-8, 8) for _ in range(nq)] for _ in range(nz)])
+            d64 = np.empty((nz, nq))
+            pg.parallel_gradient(pint.astype(np.float64), ri, d64)
+            run['dtype_dev'] = {}
+            for dtn in ('int64', 'float32'):
+                dd = np.empty((nz, nq))
+                try:
+                    pg.parallel_gradient(pint.astype(dtn), ri, dd)
+                    run['dtype_dev'][dtn] = float(np.max(np.abs(dd - d64)))
+                except Exception as e:
+                    run['dtype_dev'][dtn] = 'raised %s' % type(e).__name__
+            run['dtype_scale'] = float(np.max(np.abs(d64)))
         out['runs'].append(run)
     return out
 
@@ -399,6 +412,12 @@ def judge_object(chk, c, o, answers):
             dev = max(abs(x) for row in rn['out'] for x in row)
             if dev > tol + 64 * U * scale * sw * 1.25:
                 chk.violation('parallel_gradient:constants', 'gradient of the constant -1.25 is %.3g' % dev, rep)
+        for dtn, dv in sorted(rn.get('dtype_dev', {}).items()):
+            chk.count(('dtype', c['k'], ri, dtn), stratum='pargrad-float/potential-dtype-%s' % dtn)
+            if isinstance(dv, str) or dv > 1e-12 * max(1.0, rn.get('dtype_scale', 1.0)):
+                chk.violation('parallel_gradient:potential-dtype:%s' % dtn,
+                              'the same integer-valued potential held as %s gives a gradient that differs from the float64 one by %s' % (dtn, dv),
+                              {'case': desc, 'r_index': ri, 'dtype': dtn, 'deviation': dv})
         if 'zshift_dev' in rn:
             if rn['zshift_dev'] > 2 * tol:
                 chk.violation('parallel_gradient:z-shift', 'does not commute with a circular z shift: %.3g' % rn['zshift_dev'], rep)
